@@ -5,7 +5,10 @@ Tie: (A) the real Biomolecule.apply_pka_values on the whole abstract decision do
 (B) the three dictionary keys; (C) the dictionary main.non_trivial builds from the pKa rows.
 Oracle: real runs whose pKa source (main.run_propka) is replaced by a harness-supplied table:
 the final state of every titratable group vs pH<pKa, support decided by an independent reference
-run in which the state is pre-named in the input; no residue dropped; charge antitone in pH."""
+run in which the state is pre-named in the input; no residue dropped; charge antitone in pH.
+The cells come in two resolutions: pKa/pH on the two-decimal grid (far, near and equal), and "near" cells whose
+pKa carries PROPKA's full float precision and lies closer to the pH than 0.005 on either side (so that any
+rounding, formatting or truncation of the pKa or pH between the pKa source and the decision changes the outcome)."""
 
 from __future__ import annotations
 
@@ -268,7 +271,32 @@ def gen_cell(rng, grp=None, pos=None):
     return None
 
 
-def check_cell(ctx: Ctx, rng, ff, grp=None, pos=None, side=None):
+NEAR_FLAVOURS = ("ph-on-grid", "ph-off-grid")
+
+
+def near_pair(rng, side, flavour):
+    """(pH, pKa) closer than half a unit of the second decimal, pH strictly on the requested side of the pKa.
+    ph-on-grid: the pH is what a user types (one or two decimals), the pKa is a full-precision float next to it;
+    ph-off-grid: the pKa is an arbitrary float and the pH is given with three or more decimals."""
+    d = rng.choice([0.001, 0.002, 0.003, 0.004])
+    if rng.random() < 0.5:
+        d += rng.uniform(0.0, 0.0009)
+    sgn = 1.0 if side == "below" else -1.0  # below: pH < pKa
+    if flavour == "ph-on-grid":
+        ph = round(rng.uniform(0.5, 13.5), rng.choice([1, 2, 2]))
+        pka = ph + sgn * d
+    else:
+        pka = rng.uniform(0.5, 13.5)
+        if rng.random() < 0.5:
+            pka = round(pka, 3)
+        ph = pka - sgn * d
+        if rng.random() < 0.5:
+            ph = round(ph, 4)
+    assert 0.0 <= ph <= 14.0 and 0.0005 < abs(ph - pka) < 0.005 and ((ph < pka) == (side == "below")), (ph, pka, side)
+    return ph, pka
+
+
+def check_cell(ctx: Ctx, rng, ff, grp=None, pos=None, side=None, near=None):
     cell = gen_cell(rng, grp, pos)
     if cell is None:
         return []
@@ -276,10 +304,15 @@ def check_cell(ctx: Ctx, rng, ff, grp=None, pos=None, side=None):
     text = G.to_pdb([res])
     tres = res[ti]
     key = (grp, tres[0].resseq, "A")
-    pka = round(rng.uniform(0.5, 13.5), 2)
-    side = side or rng.choice(["below", "above", "equal"])
-    ph = {"below": max(0.0, pka - rng.choice([0.01, 0.5, 3])), "above": min(14.0, pka + rng.choice([0.01, 0.5, 3])), "equal": pka}[side]
-    ph = round(ph, 2)
+    if near is not None:
+        side = side or rng.choice(["below", "above"])
+        ph, pka = near_pair(rng, side, near)
+        ctx.count("near-cells(|pH-pKa|<0.005)", f"{grp}:{side}:{near}")
+    else:
+        pka = round(rng.uniform(0.5, 13.5), 2)
+        side = side or rng.choice(["below", "above", "equal"])
+        ph = {"below": max(0.0, pka - rng.choice([0.01, 0.5, 3])), "above": min(14.0, pka + rng.choice([0.01, 0.5, 3])), "equal": pka}[side]
+        ph = round(ph, 2)
     # all other titratable groups keep their default state: pKa far on the default side
     values = {}
     for r in res:
@@ -289,11 +322,16 @@ def check_cell(ctx: Ctx, rng, ff, grp=None, pos=None, side=None):
     values[key] = pka
     run = run_titrated(text, ff, ph, values)
     ctx.evaluations += 1
-    ctx.distinct.add(("cell", ff, grp, pos, side))
+    ctx.distinct.add(("cell", ff, grp, pos, side) if near is None else ("near-cell", ff, grp, pos, side, near))
     ctx.count("cells", f"{ff}:{grp}:{pos}")
     ctx.count("cell-outcome", run.status)
+    if near is not None:
+        ctx.count("near-cell-outcome", run.status)
     sig0 = {"ff": ff, "group": grp, "position": pos, "side": "ph<pKa" if ph < pka else "ph>=pKa"}
     replay = {"pdb": text, "ff": ff, "ph": ph, "values": [[list(k), v] for k, v in values.items()], "target": list(key)}
+    if near is not None:
+        sig0["resolution"] = "|pH-pKa|<0.005"
+        replay["stream"] = f"near:{near}"
     out = []
     # (C) the dictionary handed to apply_pka_values vs the model
     if run.pkadic is not None and ctx.driver.available() and run.table.rows is not None:
@@ -403,7 +441,7 @@ def run(ctx: Ctx):
     ctx.extra["rule"] = (
         "(A) every (force field incl. user/upper-case, residue name, N/C flags, pH</=/>pKa, keys present) of apply_pka_values: exhaustive; "
         "(cells) peptide windows with each titratable group (ASP GLU HIS CYS TYR LYS ARG N+ C-) at N-terminal/internal/C-terminal position x six force fields x pH below/above/equal to a supplied pKa, "
-        "with reference runs; (sweeps) pH sweeps of windows with random pKa tables; a case is (ff, group, position, side); distinct counts distinct tuples"
+        "with reference runs; (near cells) the same for every group x side with a full-precision pKa closer to the pH than 0.005 (pH typed on the 1-2 decimal grid, or off it); (sweeps) pH sweeps of windows with random pKa tables; a case is (ff, group, position, side); distinct counts distinct tuples"
     )
     del BAD_CELLS[:]
     tie_decision(ctx)
@@ -441,6 +479,21 @@ def run(ctx: Ctx):
                 continue
             seen.add(k)
             ctx.violate(sig, msg, rp)
+    # near cells: every group kind x both sides x both pH flavours, force field cycling, position drawn by gen_cell
+    ni = rng.randrange(len(FFS))
+    for _rep in range(ctx.scale(1, 20)):
+        for grp in TITR + ["N+", "C-"]:
+            for side in ("below", "above"):
+                for flavour in NEAR_FLAVOURS:
+                    ff = FFS[ni % len(FFS)]
+                    ni += 1
+                    for sig, msg, rp in check_cell(ctx, rng, ff, grp=grp, side=side, near=flavour):
+                        k = tuple(sorted(sig.items()))
+                        if k in seen:
+                            continue
+                        seen.add(k)
+                        ctx.violate(sig, msg, rp)
+                        ctx.sample({"signature": sig, "message": msg}, limit=8)
     if not ctx.samples:
         ctx.sample({"cells": dict(list(ctx.distribution.get("cells", {}).items())[:10])})
 
